@@ -40,10 +40,12 @@ from PyMatterSim.static.boo import boo_3d
 from PyMatterSim.neighbors.calculate_neighbors import Nnearests, cutoffneighbors
 from PyMatterSim.neighbors.freud_neighbors import cal_neighbors
 from PyMatterSim.reader.reader_utils import Snapshots
+from PyMatterSim.utils.funcs import Wignerindex
 
 RULE = ("3D configurations on a jittered odd fractional grid (N 5..30, ortho / triclinic cell, any origin, all 8 "
-        "periodicity masks, optional image offsets, 1..3 frames) x synthetic neighbour files (k-nearest or random "
-        "asymmetric lists, cn 1..14, shuffled rows, per-frame lists) x weights {none, all equal, random positive} x "
+        "periodicity masks, optional image offsets, 1..3 frames, sheared trajectories = per-frame tilt factors with the "
+        "same edge lengths, N down to 2) x synthetic neighbour files (k-nearest or random "
+        "asymmetric lists, cn 1..14 varying inside the frame with particle 1 on a single bond, shuffled rows, per-frame lists) x weights {none, all equal, random positive} x "
         "l 2..12 x local / coarse-grained x Nmax {default, exact, large, truncating}; reference crystals fcc / hcp / "
         "bcc(8,14) / sc / icosahedron as rotated open clusters and periodic bulk; neighbour files produced by the "
         "library's own N-nearest / cut-off / Voronoi writers.  non-trivial = coordination differs between particles, "
@@ -68,9 +70,10 @@ SQ = math.sqrt
 
 
 @st.composite
-def frames_st(draw, cell, N, g, T, amp, ppp, outside):
-    """T position arrays on the jittered grid; returns (list of positions, list of fractional arrays)."""
-    H, lo = cell["H"], cell["lo"]
+def frames_st(draw, cells, N, g, T, amp, ppp, outside):
+    """T position arrays on the jittered grid, frame k mapped through ITS OWN cell: lo + f_k @ H_k."""
+    if isinstance(cells, dict):
+        cells = [cells] * T
     pos = []
     sites = None
     for k in range(T):
@@ -85,7 +88,7 @@ def frames_st(draw, cell, N, g, T, amp, ppp, outside):
         offs = np.zeros((N, 3))
         if outside:
             offs = draw(hnp.arrays(np.int64, (N, 3), elements=st.integers(-1, 1))).astype(float) * ppp
-        pos.append(lo + (f + offs) @ H)
+        pos.append(cells[k]["lo"] + (f + offs) @ cells[k]["H"])
     return pos
 
 
@@ -104,22 +107,39 @@ def _lists(rng, pos, H, ppp, mode, cn):
 
 
 @st.composite
-def case_st(draw, frames=(1, 3), ls=(2, 3, 4, 5, 6, 6, 7, 8, 9, 10, 11, 12, 6, 4), weights=("none", "equal", "random"), nmax=30, nmin=5,
-            nmax_classes=("default", "default", "exact", "large", "trunc"), cmaxs=(2, 6, 14)):
+def case_st(draw, frames=(1, 3), ls=(2, 3, 4, 5, 6, 6, 7, 8, 9, 10, 11, 12, 6, 4), weights=("none", "equal", "random"), nmax=30, nmin=2,
+            nmax_classes=("default", "default", "exact", "large", "trunc"), cmaxs=(6, 14, 3, 6, 14, 3, 6, 1), shear=True):
     kind = draw(st.sampled_from(["ortho", "tri"]))
     cell = draw(cell_st(3, kind, lmin=2.0, lmax=30.0))
     g = draw(st.sampled_from([3, 3, 5]))
-    N = draw(st.integers(nmin, min(nmax, g ** 3)))
+    # minimal sizes (N = 2..4) are their own small class; otherwise N >= 6 so that coordination can vary inside a frame
+    if nmin < 5 and draw(st.sampled_from([False] * 9 + [True])):
+        N = draw(st.integers(nmin, 4))
+    else:
+        N = draw(st.integers(max(nmin, 6), min(nmax, g ** 3)))
     T = draw(st.integers(*frames))
     amp = draw(st.sampled_from([0.0, 0.02, 0.24, 0.24]))
     ppp = draw(ppp_st(3))
     outside = draw(st.booleans())
-    pos = draw(frames_st(cell, N, g, T, amp, ppp, outside))
+    # sheared trajectory: same edge lengths and origin (boo_3d asserts constant boxlength), per-frame tilt factors
+    sheared = bool(shear and kind == "tri" and T >= 2 and draw(st.integers(0, 2)) > 0)
+    cells = [cell]
+    for k in range(1, T):
+        if sheared:
+            Hk = np.diag(np.diag(cell["H"]))
+            Lk = np.diag(Hk)
+            Hk[1, 0] = Lk[0] * draw(st.one_of(st.just(0.0), fl(-0.5, 0.5)))
+            Hk[2, 0] = Lk[0] * draw(fl(-0.5, 0.5))
+            Hk[2, 1] = Lk[1] * draw(st.one_of(st.just(0.0), fl(-0.5, 0.5)))
+            cells.append(dict(cell, H=Hk))
+        else:
+            cells.append(cell)
+    pos = draw(frames_st(cells, N, g, T, amp, ppp, outside))
     seed = draw(st.integers(0, 2 ** 32 - 1))
     rng = np.random.default_rng(seed)
     mode = draw(st.sampled_from(["nearest", "random"]))
     cmax = min(draw(st.sampled_from(list(cmaxs))), N - 1)
-    uniform_cn = draw(st.integers(0, 3)) == 0
+    uniform_cn = draw(st.sampled_from([False] * 7 + [True]))
     nl, w, rows = [], [], []
     wmode = draw(st.sampled_from(list(weights)))
     wconst = draw(st.sampled_from([1.0, 0.37, 12.5]))
@@ -128,7 +148,11 @@ def case_st(draw, frames=(1, 3), ls=(2, 3, 4, 5, 6, 6, 7, 8, 9, 10, 11, 12, 6, 4
             cn = np.full(N, draw(st.integers(1, cmax)), dtype=int)
         else:
             cn = draw(hnp.arrays(np.int64, (N,), elements=st.integers(1, cmax)))
-        lists = _lists(rng, pos[k], cell["H"], ppp, mode, cn)
+            # coordination varies inside the frame: particle 1 (index 0) has a single bond (|q_lm|^2 = (2l+1)/4pi, the
+            # largest possible, so it is noticed wherever index 0 leaks through zero padding), another one the maximum
+            cn[0] = 1
+            cn[-1] = cmax
+        lists = _lists(rng, pos[k], cells[k]["H"], ppp, mode, cn)
         nl.append(lists)
         if wmode == "equal":
             w.append([np.full(len(x), wconst) for x in lists])
@@ -152,7 +176,7 @@ def case_st(draw, frames=(1, 3), ls=(2, 3, 4, 5, 6, 6, 7, 8, 9, 10, 11, 12, 6, 4
     for k in range(T - 1):
         ts.append(ts[-1] + dts[k])
     return {
-        "cell": cell, "pos": pos, "ppp": ppp, "timesteps": ts, "l": draw(st.sampled_from(list(ls))),
+        "cell": cell, "cells": cells, "sheared": sheared, "pos": pos, "ppp": ppp, "timesteps": ts, "l": draw(st.sampled_from(list(ls))),
         "nl": nl, "w": w, "rows": rows, "wmode": wmode, "Nmax": Nmax, "ncls": ncls,
         "wfmt": draw(st.sampled_from(["%.6f", "%.10g", "%r"])),
         "nhead": draw(st.sampled_from(["id cn neighborlist", "id     cn     neighborlist", "id   cn   neighborlist"])),
@@ -160,7 +184,7 @@ def case_st(draw, frames=(1, 3), ls=(2, 3, 4, 5, 6, 6, 7, 8, 9, 10, 11, 12, 6, 4
         "trail": draw(st.booleans()),
         "cg": draw(st.booleans()), "c": draw(st.sampled_from([0.7, 0.7, 0.5, 0.0, 0.9, 0.2, -0.3, -1.0])),
         "files": draw(st.integers(0, 3)), "dt": draw(st.sampled_from([0.002, 1.0, 0.005])),
-        "nbins": draw(st.integers(3, 30)), "binfrac": draw(st.sampled_from([0.1, 0.5, 0.9])),
+        "nbins": draw(st.integers(1, 30)), "binfrac": draw(st.sampled_from([0.1, 0.5, 0.9])),
         "meta": {"g": g, "amp": amp, "mode": mode, "outside": bool(outside), "kind": kind, "seed": seed},
     }
 
@@ -197,28 +221,32 @@ def write_files(case, nfile="nb.dat", wfile="w.dat"):
     return nfile, (wfile if case["wmode"] != "none" else None), eff
 
 
-def reference(case, eff):
-    l = case["l"]
-    H, ppp = case["cell"]["H"], case["ppp"]
+def cells_of(case):
+    return case.get("cells") or [case["cell"]] * len(case["pos"])
+
+
+def reference(case, eff, l=None):
+    l = case["l"] if l is None else l
+    ppp = case["ppp"]
     out = []
     for k, (lists, wts) in enumerate(eff):
-        r = S.qlm(l, case["pos"][k], H, ppp, lists, wts)
+        r = S.qlm(l, case["pos"][k], cells_of(case)[k]["H"], ppp, lists, wts)
         assert r["tie"].min() > 1e-6 and r["rmin"].min() > 0, "generator precondition broken (tie / coincident)"
         Q, EQ = S.coarse(r["q"], r["eps"], lists)
         out.append({"q": r["q"], "eps": r["eps"], "Q": Q, "epsQ": EQ, "lists": lists})
     return out
 
 
-def make_boo(case, nfile, wfile):
-    snaps_l = [snapshot_from(case["cell"], p, np.ones(len(p), dtype=int), ts)
-               for p, ts in zip(case["pos"], case["timesteps"])]
+def make_boo(case, nfile, wfile, l=None):
+    snaps_l = [snapshot_from(c, p, np.ones(len(p), dtype=int), ts)
+               for c, p, ts in zip(cells_of(case), case["pos"], case["timesteps"])]
     snaps = Snapshots(nsnapshots=len(snaps_l), snapshots=snaps_l)
     kw = {}
     if case["Nmax"] is not None:
         kw["Nmax"] = int(case["Nmax"])
     if wfile is not None:
         kw["weightsfile"] = wfile
-    return boo_3d(snaps, l=int(case["l"]), neighborfile=nfile, ppp=np.array(case["ppp"]), **kw), snaps
+    return boo_3d(snaps, l=int(case["l"] if l is None else l), neighborfile=nfile, ppp=np.array(case["ppp"]), **kw), snaps
 
 
 def close_eps(name, got, want, eps, rtol=1e-9):
@@ -255,12 +283,18 @@ def common_tags(case, ref):
             "outside" if case["meta"]["outside"] else "inside", f"amp{case['meta']['amp']}",
             "cn-varies" if len(set(cns)) > 1 else "cn-uniform",
             "rows-shuffled" if any(not np.array_equal(r[0], np.arange(len(r[0]))) for r in case["rows"]) else "rows-ordered",
-            "cg" if case["cg"] else "local"]
+            "cg" if case["cg"] else "local", "sheared" if case.get("sheared") else "fixed-cell", f"N{min(len(case['pos'][0]), 5)}"]
+    if any(len(set(len(x) for x in r["lists"])) > 1 for r in ref):
+        tags.append("cn-varies-within-frame")
+        if all(len(r["lists"][0]) == 1 for r in ref) and min(S.norm(r["q"][0]) for r in ref) > 0.1:
+            tags.append("p0-single-bond")
+    if min(cns) == 1:
+        tags.append("has-single-neighbour")
     if max(cns) >= 9:
         tags.append("cn>=9")
     pole = any(np.any(np.hypot(v[:, 0], v[:, 1]) < 1e-6 * np.abs(v[:, 2]))
                for k, r in enumerate(ref) for i, nb in enumerate(r["lists"])
-               for v in [S.min_image(case["pos"][k][nb] - case["pos"][k][i], case["cell"]["H"], case["ppp"])[0]])
+               for v in [S.min_image(case["pos"][k][nb] - case["pos"][k][i], cells_of(case)[k]["H"], case["ppp"])[0]])
     if pole:
         tags.append("bond-on-z-axis")
     return tags
@@ -488,7 +522,7 @@ def check_corr(case):
     lmin = float(np.diag(H).min())
     rdelta = lmin / 2.0 / (case["nbins"] + case["binfrac"])
     vol = float(np.prod(np.diag(H)))
-    frames = [S.vector_gr(case["pos"][k], H, ppp, vec[k], rdelta, lmin, vol) for k in range(T)]
+    frames = [S.vector_gr(case["pos"][k], cells_of(case)[k]["H"], ppp, vec[k], rdelta, lmin, vol) for k in range(T)]
     nb = case["nbins"]
     assert all(len(f["r"]) == nb for f in frames)
     gr_ref = sum(f["gr"] for f in frames) / T
@@ -664,7 +698,7 @@ def check_crystal(case):
 def libneigh_st(draw, writers=("nnearest", "cutoff", "voronoi", "voronoi")):
     writer = draw(st.sampled_from(list(writers)))
     case = draw(case_st(frames=(1, 2), weights=("none",), nmax_classes=("default",), ls=(2, 3, 4, 6, 7, 10, 12),
-                        nmin=20 if writer == "voronoi" else 5))
+                        nmin=20 if writer == "voronoi" else 5, cmaxs=(2, 6, 14)))
     case["writer"] = writer
     N = len(case["pos"][0])
     if writer == "voronoi":
@@ -681,6 +715,7 @@ def libneigh_st(draw, writers=("nnearest", "cutoff", "voronoi", "voronoi")):
         ppp = np.ones(3, dtype=int)
         case["pos"] = draw(frames_st(cell, N, g, T, amp, ppp, False))
         case["cell"], case["ppp"] = cell, ppp
+        case["cells"], case["sheared"] = [cell] * T, False
         case["meta"].update(kind="ortho", outside=False, amp=amp)
         case["use_weights"] = draw(st.sampled_from([True, True, False]))
     elif writer == "nnearest":
@@ -714,8 +749,9 @@ def parse_neighbor_file(fname, N, T, floats=False):
 def check_libneigh(case):
     l = case["l"]
     T, N = len(case["pos"]), len(case["pos"][0])
-    H, ppp = case["cell"]["H"], case["ppp"]
-    snaps_l = [snapshot_from(case["cell"], p, np.ones(N, dtype=int), ts) for p, ts in zip(case["pos"], case["timesteps"])]
+    ppp = case["ppp"]
+    Hs = [c["H"] for c in cells_of(case)]
+    snaps_l = [snapshot_from(c, p, np.ones(N, dtype=int), ts) for c, p, ts in zip(cells_of(case), case["pos"], case["timesteps"])]
     snaps = Snapshots(nsnapshots=T, snapshots=snaps_l)
     wfile = None
     if case["writer"] == "nnearest":
@@ -724,7 +760,7 @@ def check_libneigh(case):
     elif case["writer"] == "cutoff":
         # smallest cut-off that gives every particle a neighbour, times a factor
         dmax = 0.0
-        for p in case["pos"]:
+        for p, H in zip(case["pos"], Hs):
             for i in range(N):
                 vec, _ = S.min_image(np.delete(p, i, axis=0) - p[i], H, ppp)
                 dmax = max(dmax, float(np.sqrt((vec * vec).sum(axis=1)).min()))
@@ -746,7 +782,7 @@ def check_libneigh(case):
     Nmax = max(30, maxcn)
     ref = []
     for k in range(T):
-        r = S.qlm(l, case["pos"][k], H, ppp, lists[k], wts[k])
+        r = S.qlm(l, case["pos"][k], Hs[k], ppp, lists[k], wts[k])
         Q, EQ = S.coarse(r["q"], r["eps"], lists[k])
         ref.append({"q": r["q"], "eps": r["eps"], "Q": Q, "epsQ": EQ, "lists": lists[k]})
     kw = {"weightsfile": wfile} if wfile else {}
@@ -762,6 +798,94 @@ def check_libneigh(case):
     if dup:
         tags.append("duplicate-neighbour")
     return {"nontrivial": bool(len(set(cns)) > 1 or T >= 2 or wfile), "tags": tags}
+
+
+# ============================================================================= facet: state carried between calls
+
+
+@st.composite
+def calls_st(draw):
+    ls = (2, 3, 4, 5, 6)
+    case = draw(case_st(frames=(1, 2), ls=ls, nmax=12, weights=("none", "random"), nmax_classes=("default", "exact")))
+    case["l2"] = draw(st.sampled_from([x for x in ls if x != case["l"]]))
+    case["direct"] = draw(st.booleans())
+    return case
+
+
+def _sij_list(name, got, ref, l, cg, T, N):
+    require(isinstance(got, (list, tuple)) and len(got) == T, f"{name}: expected one array per snapshot")
+    for k in range(T):
+        r = ref[k]
+        sref = sij_reference(l, r["Q"] if cg else r["q"], r["epsQ"] if cg else r["eps"], r["lists"])
+        b = arr(f"{name}[{k}]", got[k], ndim=2)
+        require(b.shape[0] == N and b.shape[1] >= 2 + max(len(x) for x in r["lists"]), f"{name}[{k}]: shape {b.shape}")
+        for i in range(N):
+            sv, tol, deg = sref[i]
+            ok = ~deg
+            if ok.any():
+                close_eps(f"{name}[{k}] particle {i + 1}", b[i, 2:2 + len(sv)][ok], sv[ok], tol[ok], rtol=0)
+
+
+def check_calls(case):
+    """Two objects with different degree used alternately, the same object asked repeatedly with different
+    coarse_graining flags: every answer must be the one for the arguments of THAT call (no memo keyed wrongly)."""
+    l1, l2 = case["l"], case["l2"]
+    T, N = len(case["pos"]), len(case["pos"][0])
+    nfile, wfile, eff = write_files(case)
+    refs = {l1: reference(case, eff, l1), l2: reference(case, eff, l2)}
+    boos = {l1: make_boo(case, nfile, wfile, l1)[0], l2: make_boo(case, nfile, wfile, l2)[0]}
+    vec = {}
+    for l in (l1, l2):
+        vec[l] = vectors(boos[l], refs[l], T, N, l)
+
+    def ql(l, cg):
+        q, Q, e, E = vec[l]
+        close_eps(f"ql_Ql(l={l}, coarse_graining={cg})", boos[l].ql_Ql(coarse_graining=cg), S.ql(l, Q if cg else q),
+                  SQ(4 * math.pi) * (E if cg else e))
+
+    def sij(l, cg):
+        _sij_list(f"sij_ql_Ql(l={l}, coarse_graining={cg})", boos[l].sij_ql_Ql(coarse_graining=cg, c=0.7), refs[l], l, cg, T, N)
+
+    def wcap(l, cg):
+        q, Q, e, E = vec[l]
+        v, ee = (Q, E) if cg else (q, e)
+        got = boos[l].w_W_cap(coarse_graining=cg)
+        require(isinstance(got, tuple) and len(got) == 2, "w_W_cap does not return a pair")
+        w_ref, wh_ref, _ = S.wl(l, v)
+        nq = S.norm(v)
+        dq = SQ(2 * l + 1) * ee
+        close_eps(f"w_l(l={l}, coarse_graining={cg})", got[0], w_ref, 3 * nq ** 2 * dq + 1e-12 * nq ** 3 + 1e-15)
+        with np.errstate(divide="ignore", invalid="ignore"):
+            tol = 6 * dq / nq
+        ok = tol < 1e-3
+        gh = arr("w-hat_l", got[1], shape=(T, N))
+        if ok.any():
+            close_eps(f"w-hat_l(l={l}, coarse_graining={cg})", gh[ok], wh_ref[ok], tol[ok] + 1e-12)
+
+    def table(l):
+        raw = Wignerindex(l)
+        try:  # the table holds sympy numbers (object dtype); any numeric representation is acceptable
+            tab = np.array(raw, dtype=float)
+        except Exception as ex:  # noqa: BLE001
+            raise Violation(f"Wignerindex({l}) is not a numeric table: {ex}")
+        tab = arr(f"Wignerindex({l})", tab, ndim=2)
+        ms = [(a, b, -a - b) for a in range(-l, l + 1) for b in range(-l, l + 1) if abs(a + b) <= l]
+        require(tab.shape == (len(ms), 4), f"Wignerindex({l}): shape {tab.shape}, expected ({len(ms)}, 4)")
+        got = {tuple(int(round(float(x))) for x in row[:3]): float(row[3]) for row in tab}
+        require(set(got) == set(ms), f"Wignerindex({l}): rows are not the triples m1+m2+m3=0 with |m|<={l}")
+        want = np.array([S.wigner3j(l, l, l, *m) for m in ms])
+        close(f"Wignerindex({l}) values", np.array([got[m] for m in ms]), want, rtol=1e-10, atol=1e-13)
+
+    # same object: flags alternate and repeat; two objects: degrees alternate
+    ql(l1, False); sij(l1, True); ql(l1, True); sij(l1, False); ql(l2, True); ql(l1, False); sij(l1, True); sij(l2, False)  # noqa: E702
+    if case["direct"]:
+        table(l1); table(l2); table(l1)  # noqa: E702
+    wcap(l1, case["cg"]); wcap(l2, not case["cg"]); wcap(l1, not case["cg"]); wcap(l2, case["cg"])  # noqa: E702
+    # the vectors themselves were not disturbed by the calls
+    for l in (l1, l2):
+        vectors(boos[l], refs[l], T, N, l)
+    tags = [t for t in common_tags(case, refs[l1]) if not t.startswith("l")] + [f"l{l1}-l{l2}", "direct-table" if case["direct"] else "via-w_W_cap"]
+    return {"nontrivial": nontrivial(case, refs[l1]), "tags": tags}
 
 
 # ============================================================================= descriptions and facets
@@ -794,6 +918,10 @@ FACETS = [
           rule="spatial_corr (frame-averaged vector-conditional g(r): columns r, gr, gA, csv) and time_corr "
                "(origin-averaged normalised autocorrelation, even / uneven / single frame, csv); non-trivial = RULE "
                "and some compared bin with gA != 0"),
+    Facet("calls", calls_st(), check_calls, quick=30, thorough=1500, describe=describe, shards_quick=3,
+          rule="two boo_3d objects of different degree (l in 2..6) on the same files used alternately for ql_Ql / sij_ql_Ql / "
+               "w_W_cap, the same object asked repeatedly with alternating coarse_graining flags, Wignerindex called "
+               "directly for l1, l2, l1: every answer is the reference for the arguments of that call"),
     Facet("crystals", crystal_st(), check_crystal, quick=200, thorough=3000, describe=describe, shards_quick=4,
           rule="fcc / hcp / bcc(8) / bcc(14) / sc / icosahedron: rotated open clusters (list for the central atom) and "
                "periodic bulk crystals against the tabulated q4, q6, w-hat4, w-hat6 (1e-5); bulk: Q_l = q_l, s_ij = 1"),
@@ -806,7 +934,8 @@ MANIFEST = {
     "text": ("boo_3d on generated 3D configurations, neighbour files and weight files: q_lm and coarse-grained Q_lm, "
              "q_l/Q_l, w_l and w-hat_l, s_ij with its thresholded count and all output layouts, spatial_corr and "
              "time_corr equal an independent implementation of Steinhardt's definitions (facets qlm, sij, w_cap, "
-             "w_cap_high_l, corr); equal weights reproduce the unweighted result; 0 <= q_l <= 1, |s_ij| <= 1; perfect "
+             "w_cap_high_l, corr), also on sheared trajectories (each frame's own cell matrix) and when objects of different "
+             "degree / different coarse_graining flags are used alternately (facet calls); equal weights reproduce the unweighted result; 0 <= q_l <= 1, |s_ij| <= 1; perfect "
              "fcc/hcp/bcc/sc/icosahedral environments give the tabulated q4, q6, w-hat4, w-hat6 (facet crystals); "
              "files written by the library's own N-nearest, cut-off and Voronoi writers feed boo_3d consistently "
              "(facet libneigh)."),
